@@ -70,6 +70,36 @@ def has_objstruct(fs):
     return False
 
 
+def corpus():
+    """valid file sets at the edges of what the rules allow"""
+    def fs1(decls):
+        return {"files": [{"path": "main.idl", "includes": [], "decls": decls}], "main": "main.idl", "idirs": []}
+    M = lambda n, ps: ("method", n, ps, False, None)
+    out = []
+    # struct sizes far beyond 2^31 and 2^32 (array sizes stay within 1..65535)
+    for tag, n in (("below_2_32", 8192), ("above_2_32", 8193), ("above_2_31", 4097)):
+        out.append(("big_struct_" + tag, fs1([("struct", "Page", [("uint64", 65535, "words")]), ("struct", "Region", [("Page", n, "pages")]),
+                                               ("iface", "IR", None, [M("f", [("in", "Region", "[]", "r")]), M("g", [("out", "Region", "[]", "r")])])])))
+    out.append(("big_struct_2_48", fs1([("struct", "L0", [("uint8", 65535, "a"), ("uint8", 1, "b")]), ("struct", "L1", [("L0", 65535, "a")]), ("struct", "L2", [("L1", 65535, "a")]),
+                                        ("iface", "IR", None, [M("f", [("in", "L2", "[]", "r")])])])))
+    # the largest argument lists the counts word can describe: 15 of each class
+    out.append(("counts_15_each", fs1([("iface", "IMax", None, [
+        M("bi", [("in", "buffer", None, "p%d" % i) for i in range(15)]), M("bo", [("out", "buffer", None, "p%d" % i) for i in range(15)]),
+        M("oi", [("in", "interface", None, "p%d" % i) for i in range(15)]), M("oo", [("out", "interface", None, "p%d" % i) for i in range(15)]),
+        M("all", [("in", "buffer", None, "a%d" % i) for i in range(15)] + [("out", "buffer", None, "b%d" % i) for i in range(15)] +
+                 [("in", "interface", None, "c%d" % i) for i in range(15)] + [("out", "interface", None, "d%d" % i) for i in range(15)]),
+        M("bundled", [("in", "uint16", "[]", "a%d" % i) for i in range(14)] + [("in", "uint32", None, "k"), ("in", "uint8", None, "j")])])])))
+    # deep nesting and a long chain
+    deep = [("struct", "N0", [("uint64", 1, "x")])] + [("struct", "N%d" % i, [("N%d" % (i - 1), 2, "inner"), ("uint64", 1, "x")]) for i in range(1, 14)]
+    out.append(("deep_nesting", fs1(deep + [("iface", "IDeep", None, [M("f", [("in", "N13", None, "v"), ("out", "N13", None, "w")])])])))
+    chain, prev = [], None
+    for i in range(14):
+        chain.append(("iface", "IC%d" % i, prev, [M("m%d" % i, [("in", "uint32", None, "x")]), ("error", "E%d" % i), ("const", "uint32", "K%d" % i, str(i))]))
+        prev = "IC%d" % i
+    out.append(("long_chain", fs1(chain)))
+    return out
+
+
 def run(ctx):
     prop, tier, seed, work = ctx["prop"], ctx["tier"], ctx["seed"], ctx["work"]
     n = 60 if tier == "quick" else 1500
@@ -79,6 +109,7 @@ def run(ctx):
         cases.append((rp.get("variant", "orig"), rp["fileset"]))
     else:
         rng = vlib.mkrng(seed, prop)
+        cases += corpus()
         for k in range(n):
             fs, _ = gen.gen_fileset(rng, nfiles=(rng.choice([3, 4, 5]) if k % 4 == 0 else None))
             cases += variants(rng, fs)
